@@ -23,6 +23,7 @@ import (
 
 	"verif/rig"
 	"vh/gen/base"
+	"vh/gen/c07scopes"
 	"vh/gen/mainsvc"
 )
 
@@ -46,6 +47,99 @@ type Spec struct {
 	ViaInject   bool     `json:"via_inject,omitempty"`
 	Seed        int64    `json:"seed,string"`
 	Probe       string   `json:"probe,omitempty"` // attribution probe for one malformed kind
+	// Mode "shared": ONE scope provider (one subscriber transport factory)
+	// serves all of Subs at the same time; valid publishes interleaved on all
+	// their topics; Subs[0] is unsubscribed mid-way.
+	Mode string    `json:"mode,omitempty"`
+	Subs []SubSpec `json:"subs,omitempty"`
+}
+
+// SubSpec is one subscription of a shared-provider sequence.
+type SubSpec struct {
+	Op   string `json:"op"`
+	User string `json:"user"`
+}
+
+// Operations: Sent, Num (scope Events prefix foo.{user}), Ping (scope Plain) of
+// fixtures/main.frugal, and one operation per oddly named scope of
+// fixtures/c07scopes.frugal.
+var scopeOps = []string{"UserEvents", "Api", "HttpUrlId", "Alerts", "IdMap"}
+
+// wireName is the operation name inside the frame.
+func wireName(op string) string {
+	switch op {
+	case "UserEvents":
+		return "Created"
+	case "Api":
+		return "Hit"
+	case "HttpUrlId":
+		return "Seen"
+	case "Alerts":
+		return "Raised"
+	case "IdMap":
+		return "Put"
+	}
+	return op
+}
+
+// scopeName is the IDL name of the operation's scope.
+func scopeName(op string) string {
+	switch op {
+	case "UserEvents":
+		return "user_events"
+	case "Api":
+		return "Api"
+	case "HttpUrlId":
+		return "http_url_Id"
+	case "Alerts":
+		return "alerts"
+	case "IdMap":
+		return "Id_map"
+	case "Ping":
+		return "Plain"
+	}
+	return "Events"
+}
+
+func hasVar(op string) bool { return op != "Ping" && op != "Api" && op != "Alerts" }
+
+type scopePubs struct {
+	ue  c07scopes.UserEventsPublisher
+	api c07scopes.APIPublisher
+	hui c07scopes.HTTPURLIDPublisher
+	al  c07scopes.AlertsPublisher
+	idm c07scopes.IDMapPublisher
+}
+
+func newScopePubs(p *frugal.FScopeProvider) *scopePubs {
+	return &scopePubs{ue: c07scopes.NewUserEventsPublisher(p), api: c07scopes.NewAPIPublisher(p), hui: c07scopes.NewHTTPURLIDPublisher(p),
+		al: c07scopes.NewAlertsPublisher(p), idm: c07scopes.NewIDMapPublisher(p)}
+}
+
+func (sp *scopePubs) open() {
+	sp.ue.Open()
+	sp.api.Open()
+	sp.hui.Open()
+	sp.al.Open()
+	sp.idm.Open()
+}
+
+// publish sends a Note on the operation's topic; false if op is not one of
+// the c07scopes operations.
+func (sp *scopePubs) publish(ctx frugal.FContext, op, user string, n *c07scopes.Note) (bool, error) {
+	switch op {
+	case "UserEvents":
+		return true, sp.ue.PublishCreated(ctx, user, n)
+	case "Api":
+		return true, sp.api.PublishHit(ctx, n)
+	case "HttpUrlId":
+		return true, sp.hui.PublishSeen(ctx, "t-"+user, user, n)
+	case "Alerts":
+		return true, sp.al.PublishRaised(ctx, n)
+	case "IdMap":
+		return true, sp.idm.PublishPut(ctx, user, n)
+	}
+	return false, nil
 }
 
 // Vio is a violation found by the child, reported by the parent through ev.
@@ -137,6 +231,9 @@ func (r *recorder) onThing(fctx frugal.FContext, t *base.Thing) {
 func (r *recorder) onPayload(fctx frugal.FContext, p *mainsvc.Payload) {
 	r.add(payloadID(p), canonPayload(p), fctx)
 }
+func (r *recorder) onNote(fctx frugal.FContext, n *c07scopes.Note) {
+	r.add(int64(n.ID), canonNote(n), fctx)
+}
 func (r *recorder) length() int { r.mu.Lock(); defer r.mu.Unlock(); return len(r.log) }
 func (r *recorder) has(cid string) bool {
 	r.mu.Lock()
@@ -157,6 +254,9 @@ type subscriber struct {
 	workerFn string // function run by the transport's worker goroutines
 	dumpOK   bool   // the workers were visible in a dump right after Subscribe
 	unsub    bool
+	op, user string
+	topic    string // the topic the emitted publisher publishes this operation on
+	idx      int
 }
 
 type msg struct {
@@ -171,6 +271,7 @@ type msg struct {
 	PubHdrs  map[string]string
 	Raw      []byte
 	RawTopic string
+	Target   *subscriber // shared mode: the subscription whose topic it was published on
 }
 
 type seqRun struct {
@@ -186,7 +287,9 @@ type seqRun struct {
 	pubP               mainsvc.PlainPublisher
 	capE               mainsvc.EventsPublisher
 	capP               mainsvc.PlainPublisher
+	pubX, capX         *scopePubs
 	cap                *capFactory
+	subs               []*subscriber // shared mode
 
 	msgs    []*msg
 	byCid   map[string]*msg
@@ -195,7 +298,7 @@ type seqRun struct {
 
 	tapCount  int64 // bodies the tap received
 	onSubject int64 // bodies published on the subscribed subject
-	tapStop   func()
+	tapStops  []func()
 
 	A, B    *subscriber
 	aborted bool
@@ -230,7 +333,7 @@ func (q *seqRun) count(k string, n int) { q.res.Counters[k] += n }
 func (q *seqRun) vio(sig, what string, witness map[string]interface{}) {
 	witness["spec"] = q.spec
 	witness["steps"] = string(q.letters)
-	witness["steps_legend"] = "V valid, S sentinel, F follow-up sentinel, | Unsubscribe(A), lower case = malformed kind (s short-frame l len4 b bad-version n neg-header-size h huge-header-size t tiny-header-size p bad-pair-size o no-opid w wrong-op c truncated g garbage x wrong-struct), digits = foreign (1 other-op 2 other-user 3 prefix-topic 4 extension-topic)"
+	witness["steps_legend"] = "shared mode: a b c = valid message on the topic of subscription 0 1 2, digits 0 1 2 = its sentinel; otherwise: V valid, S sentinel, F follow-up sentinel, | Unsubscribe(A), lower case = malformed kind (s short-frame l len4 b bad-version n neg-header-size h huge-header-size t tiny-header-size p bad-pair-size o no-opid w wrong-op c truncated g garbage x wrong-struct), digits = foreign (1 other-op 2 other-user 3 prefix-topic 4 extension-topic)"
 	q.res.Vios = append(q.res.Vios, Vio{Sig: "C07:" + q.spec.Broker + ":" + sig, What: what, Witness: witness})
 }
 
@@ -261,7 +364,18 @@ func shapeOf(s *Spec) string {
 	if s.Probe != "" {
 		fl += "+probe"
 	}
-	return fmt.Sprintf("%s/%s/%s%d/%s/[%s]%s", s.Broker, s.Proto, s.Factory, s.Workers, s.Op, strings.Join(k, ","), fl)
+	op := s.Op
+	if s.Mode == "shared" && s.Probe == "" {
+		op = "shared("
+		for i, x := range s.Subs {
+			if i > 0 {
+				op += ","
+			}
+			op += x.Op
+		}
+		op += ")"
+	}
+	return fmt.Sprintf("%s/%s/%s%d/%s/[%s]%s", s.Broker, s.Proto, s.Factory, s.Workers, op, strings.Join(k, ","), fl)
 }
 
 func (q *seqRun) subject(topic string) string {
@@ -308,8 +422,10 @@ func (q *seqRun) topicOf(op, user string) string {
 		q.capE.PublishSent(ctx, user, &mainsvc.Payload{First: &mainsvc.BigFirst{}})
 	case "Num":
 		q.capE.PublishNum(ctx, user, &base.Thing{})
-	default:
+	case "Ping":
 		q.capP.PublishPing(ctx, &base.Thing{})
+	default:
+		q.capX.publish(ctx, op, user, &c07scopes.Note{})
 	}
 	q.cap.mu.Lock()
 	defer q.cap.mu.Unlock()
@@ -317,24 +433,40 @@ func (q *seqRun) topicOf(op, user string) string {
 }
 
 func (q *seqRun) subscribe(name string, l *link, delay time.Duration) (*subscriber, error) {
-	x := &subscriber{name: name, rec: &recorder{have: map[string]int{}, delay: delay}}
+	return q.subscribeVia(name, q.providerFor(l), q.spec.Op, q.spec.User, delay)
+}
+
+// subscribeVia makes one subscription of (op, user) through prov.
+func (q *seqRun) subscribeVia(name string, prov *frugal.FScopeProvider, op, user string, delay time.Duration) (*subscriber, error) {
+	x := &subscriber{name: name, rec: &recorder{have: map[string]int{}, delay: delay}, op: op, user: user, topic: q.topicOf(op, user)}
 	if q.spec.Broker == "nats" {
 		x.workerFn = "fNatsSubscriberTransport).worker"
 	} else {
 		x.workerFn = "fStompSubscriberTransport).processMessages"
 	}
-	prov := q.providerFor(l)
 	done := make(chan error, 1)
 	go func() {
 		x.gid = myGID()
 		var err error
-		switch q.spec.Op {
+		switch op {
 		case "Sent":
-			x.sub, err = mainsvc.NewEventsSubscriber(prov).SubscribeSent(q.spec.User, x.rec.onPayload)
+			x.sub, err = mainsvc.NewEventsSubscriber(prov).SubscribeSent(user, x.rec.onPayload)
 		case "Num":
-			x.sub, err = mainsvc.NewEventsSubscriber(prov).SubscribeNum(q.spec.User, x.rec.onThing)
-		default:
+			x.sub, err = mainsvc.NewEventsSubscriber(prov).SubscribeNum(user, x.rec.onThing)
+		case "Ping":
 			x.sub, err = mainsvc.NewPlainSubscriber(prov).SubscribePing(x.rec.onThing)
+		case "UserEvents":
+			x.sub, err = c07scopes.NewUserEventsSubscriber(prov).SubscribeCreated(user, x.rec.onNote)
+		case "Api":
+			x.sub, err = c07scopes.NewAPISubscriber(prov).SubscribeHit(x.rec.onNote)
+		case "HttpUrlId":
+			x.sub, err = c07scopes.NewHTTPURLIDSubscriber(prov).SubscribeSeen("t-"+user, user, x.rec.onNote)
+		case "Alerts":
+			x.sub, err = c07scopes.NewAlertsSubscriber(prov).SubscribeRaised(x.rec.onNote)
+		case "IdMap":
+			x.sub, err = c07scopes.NewIDMapSubscriber(prov).SubscribePut(user, x.rec.onNote)
+		default:
+			err = fmt.Errorf("unknown operation %q", op)
 		}
 		done <- err
 	}()
@@ -374,16 +506,18 @@ func (q *seqRun) subscribe(name string, l *link, delay time.Duration) (*subscrib
 // received as many bodies as were published on the subject.  (It does not look
 // into the frames, so it keeps working when the code under test writes bad
 // frames.)
-func (q *seqRun) startTap() error {
+func (q *seqRun) startTap() error { return q.startTapOn(q.topic) }
+
+func (q *seqRun) startTapOn(topic string) error {
 	if q.spec.Broker == "nats" {
-		sub, err := q.tapL.nc.Subscribe(q.subject(q.topic), func(m *nats.Msg) { atomic.AddInt64(&q.tapCount, 1) })
+		sub, err := q.tapL.nc.Subscribe(q.subject(topic), func(m *nats.Msg) { atomic.AddInt64(&q.tapCount, 1) })
 		if err != nil {
 			return err
 		}
-		q.tapStop = func() { sub.Unsubscribe() }
+		q.tapStops = append(q.tapStops, func() { sub.Unsubscribe() })
 		return q.tapL.nc.Flush()
 	}
-	sub, err := q.tapL.sc.Subscribe(q.subject(q.topic), stomp.AckAuto)
+	sub, err := q.tapL.sc.Subscribe(q.subject(topic), stomp.AckAuto)
 	if err != nil {
 		return err
 	}
@@ -394,7 +528,6 @@ func (q *seqRun) startTap() error {
 			}
 		}
 	}()
-	q.tapStop = func() {}
 	return nil
 }
 
@@ -437,21 +570,28 @@ func (q *seqRun) publishValid(kind, sub, op, user string, phase int) (*msg, erro
 		t := genThing(q.rng, int32(m.ID))
 		m.Canon = canonThing(t)
 		err = q.pubE.PublishNum(ctx, user, t)
-	default:
+	case "Ping":
 		t := genThing(q.rng, int32(m.ID))
 		m.Canon = canonThing(t)
 		err = q.pubP.PublishPing(ctx, t)
+	default:
+		n := genNote(q.rng, int32(m.ID))
+		m.Canon = canonNote(n)
+		_, err = q.pubX.publish(ctx, op, user, n)
 	}
 	m.PubHdrs = ctx.RequestHeaders()
-	m.OnTopic = op == q.spec.Op && (op == "Ping" || user == q.spec.User)
+	m.OnTopic = op == q.spec.Op && (!hasVar(op) || user == q.spec.User)
 	return m, err
 }
 
 func (q *seqRun) structFor(op string, id int64) thrift.TStruct {
-	if op == "Sent" {
+	switch op {
+	case "Sent":
 		return genPayload(q.rng, int32(id))
+	case "Num", "Ping":
+		return genThing(q.rng, int32(id))
 	}
-	return genThing(q.rng, int32(id))
+	return genNote(q.rng, int32(id))
 }
 
 func otherOp(op string) string {
@@ -468,14 +608,14 @@ func (q *seqRun) publishMalformed(kind string, phase int) error {
 	op := q.spec.Op
 	switch kind {
 	case "wrong-op":
-		m.Raw = refFrame(q.spec.Proto, otherOp(op), q.structFor(otherOp(op), m.ID), hdrs)
+		m.Raw = refFrame(q.spec.Proto, wireName(otherOp(op)), q.structFor(otherOp(op), m.ID), hdrs)
 	case "wrong-struct":
-		m.Raw = refFrame(q.spec.Proto, op, q.structFor(otherOp(op), m.ID), hdrs)
+		m.Raw = refFrame(q.spec.Proto, wireName(op), q.structFor(otherOp(op), m.ID), hdrs)
 	case "no-opid":
 		delete(hdrs, "_opid")
-		m.Raw = refFrame(q.spec.Proto, op, q.structFor(op, m.ID), hdrs)
+		m.Raw = refFrame(q.spec.Proto, wireName(op), q.structFor(op, m.ID), hdrs)
 	default:
-		m.Raw = mutate(q.rng, kind, refFrame(q.spec.Proto, op, q.structFor(op, m.ID), hdrs))
+		m.Raw = mutate(q.rng, kind, refFrame(q.spec.Proto, wireName(op), q.structFor(op, m.ID), hdrs))
 	}
 	m.RawTopic = q.topic
 	q.letters = append(q.letters, kindLetter[kind])
@@ -512,7 +652,7 @@ func (q *seqRun) variantUser() string {
 // type on a topic the subscribers did not subscribe to.
 func (q *seqRun) publishForeign(phase int) error {
 	kind := foreignKinds[q.rng.Intn(len(foreignKinds))]
-	if q.spec.Op == "Ping" && kind == "other-user" {
+	if !hasVar(q.spec.Op) && kind == "other-user" {
 		kind = "extension-topic"
 	}
 	q.count("foreign_injected", 1)
@@ -520,7 +660,7 @@ func (q *seqRun) publishForeign(phase int) error {
 	switch kind {
 	case "other-op":
 		op, user := otherOp(q.spec.Op), q.spec.User
-		if q.spec.Op == "Ping" {
+		if !hasVar(q.spec.Op) {
 			user = genUser(q.rng)
 		}
 		_, err := q.publishValid("foreign", kind, op, user, phase)
@@ -539,10 +679,10 @@ func (q *seqRun) publishForeign(phase int) error {
 			t = t[:len(t)-1]
 		}
 	} else {
-		t += []string{".x", "x", ".Sent", "." + q.spec.Op}[q.rng.Intn(4)]
+		t += []string{".x", "x", ".Sent", "." + wireName(q.spec.Op)}[q.rng.Intn(4)]
 	}
 	m.RawTopic = t
-	m.Raw = refFrame(q.spec.Proto, q.spec.Op, q.structFor(q.spec.Op, m.ID), baseHeaders(m.Cid, m.ID, nil))
+	m.Raw = refFrame(q.spec.Proto, wireName(q.spec.Op), q.structFor(q.spec.Op, m.ID), baseHeaders(m.Cid, m.ID, nil))
 	return q.rawPublish(t, m.Raw, false)
 }
 
@@ -571,8 +711,44 @@ func (q *seqRun) publishOnTopic(kind string, phase int) (*msg, error) {
 	return m, err
 }
 
+// publishTo (shared mode) publishes a valid message on x's topic.
+func (q *seqRun) publishTo(x *subscriber, kind string, phase int) (*msg, error) {
+	m, err := q.publishValid(kind, "", x.op, x.user, phase)
+	m.Target = x
+	switch kind {
+	case "sentinel":
+		q.letters = append(q.letters, byte('0'+x.idx))
+	case "followup":
+		q.letters = append(q.letters, 'F')
+	default:
+		q.letters = append(q.letters, byte('a'+x.idx))
+	}
+	q.count("valid_published", 1)
+	q.onSubject++
+	return m, err
+}
+
+// followup publishes one more valid message x must get.
+func (q *seqRun) followup(x *subscriber, phase int) (*msg, error) {
+	if q.spec.Mode == "shared" {
+		return q.publishTo(x, "followup", phase)
+	}
+	return q.publishOnTopic("followup", phase)
+}
+
 // role of message m for subscriber x.
 func (q *seqRun) role(x *subscriber, m *msg) string {
+	if q.spec.Mode == "shared" && q.spec.Probe == "" {
+		switch {
+		case m.Target != x:
+			return "forbidden:foreign-topic-delivered:other-subscription-of-the-same-provider"
+		case x.unsub && m.Phase == 3:
+			return "forbidden:delivered-after-unsubscribe"
+		case m.Kind == "followup":
+			return "optional"
+		}
+		return "required"
+	}
 	switch m.Kind {
 	case "malformed":
 		if m.Sub == "wrong-struct" {
@@ -675,7 +851,7 @@ func (q *seqRun) settle(x *subscriber, phase int) (string, string) {
 			return "lost", text
 		}
 		if len(followups) < 4 {
-			if f, err := q.publishOnTopic("followup", phase); err == nil && q.waitTap() {
+			if f, err := q.followup(x, phase); err == nil && q.waitTap() {
 				if len(followups) == 0 {
 					firstFollowup = time.Now()
 				}
@@ -749,7 +925,8 @@ func (q *seqRun) reportMissing(x *subscriber, status, dump string) {
 	w := map[string]interface{}{
 		"subscriber": x.name, "status": status, "missing_count": len(miss), "required_count": len(q.required(x)),
 		"first_missing_step": first.Step, "first_missing_cid": first.Cid, "logged": x.rec.length(),
-		"goroutines": grep(dump, "frugal/lib/go."),
+		"goroutines":      grep(dump, "frugal/lib/go."),
+		"publisher_topic": q.topic, "subscription_topic": x.sub.Topic(), "scope": scopeName(q.spec.Op),
 	}
 	var prev *msg
 	kinds := map[string]bool{}
@@ -807,6 +984,10 @@ func (q *seqRun) attribute() {
 		w, x := p.witness, p.x
 		if q.probe("control").Stalled {
 			w["control_probe"] = "V V V V V S (valid messages only) on fresh subscribers of the same configuration is not delivered either"
+			if x.sub.Topic() != q.topic {
+				q.vio("subscriber-topic-differs-from-publisher-topic:scope="+scopeName(q.spec.Op), fmt.Sprintf("the emitted subscriber of scope %s subscribed to %q while the emitted publisher publishes on %q: the handler is never invoked (%d of %d valid messages missing, no error anywhere)", scopeName(q.spec.Op), x.sub.Topic(), q.topic, p.missing, p.required), w)
+				continue
+			}
 			q.vio("valid-messages-not-delivered", fmt.Sprintf("subscriber %s never got %d of %d valid messages published on its topic while it was subscribed (%s); valid messages alone are not delivered", x.name, p.missing, p.required, p.status), w)
 			continue
 		}
@@ -930,8 +1111,18 @@ func (q *seqRun) cleanup() {
 		case <-time.After(2 * time.Second):
 		}
 	}
-	if q.tapStop != nil {
-		q.tapStop()
+	for _, x := range q.subs {
+		if x.sub != nil && !x.unsub {
+			done := make(chan struct{})
+			go func(x *subscriber) { x.sub.Unsubscribe(); close(done) }(x)
+			select {
+			case <-done:
+			case <-time.After(2 * time.Second):
+			}
+		}
+	}
+	for _, f := range q.tapStops {
+		f()
 	}
 	for _, l := range []*link{q.pubL, q.aL, q.bL, q.tapL} {
 		l.close()
@@ -944,6 +1135,9 @@ func (q *seqRun) cleanup() {
 			}
 		}
 		q.bus.sb.Forget(q.subject(q.topic))
+		for _, x := range q.subs {
+			q.bus.sb.Forget(q.subject(x.topic))
+		}
 	}
 }
 
@@ -974,9 +1168,13 @@ func runSeq(b *bus, s *Spec) *Result {
 	q.tag = fmt.Sprintf("q%d.%d-", s.Idx, atomic.AddInt64(&idCounter, 1))
 	q.cap = &capFactory{}
 	capProv := frugal.NewFScopeProvider(q.cap, nil, rig.ProtocolFactory(s.Proto))
-	q.capE, q.capP = mainsvc.NewEventsPublisher(capProv), mainsvc.NewPlainPublisher(capProv)
+	q.capE, q.capP, q.capX = mainsvc.NewEventsPublisher(capProv), mainsvc.NewPlainPublisher(capProv), newScopePubs(capProv)
 	q.topic = q.topicOf(s.Op, s.User)
-	q.run()
+	if s.Mode == "shared" && s.Probe == "" {
+		q.runShared()
+	} else {
+		q.run()
+	}
 	// the logs are judged after everything has been torn down, so that a
 	// subscriber that kept consuming after Unsubscribe had time to show it
 	q.cleanup()
@@ -986,7 +1184,7 @@ func runSeq(b *bus, s *Spec) *Result {
 		q.count("diag_A_worker_goroutines_alive_after_teardown", len(workersOf(parseDump(rawDump()), q.A.gid, q.A.workerFn)))
 	}
 	if s.Probe == "" {
-		for _, x := range []*subscriber{q.A, q.B} {
+		for _, x := range append([]*subscriber{q.A, q.B}, q.subs...) {
 			if x != nil {
 				q.verify(x)
 			}
@@ -994,6 +1192,157 @@ func runSeq(b *bus, s *Spec) *Result {
 		q.attribute()
 	}
 	return q.res
+}
+
+func (q *seqRun) openPublishers() bool {
+	prov := q.providerFor(q.pubL)
+	q.pubE, q.pubP, q.pubX = mainsvc.NewEventsPublisher(prov), mainsvc.NewPlainPublisher(prov), newScopePubs(prov)
+	if err := q.pubE.Open(); err != nil {
+		q.inconclusive("publisher Open: " + err.Error())
+		return false
+	}
+	q.pubP.Open()
+	q.pubX.open()
+	return true
+}
+
+// waitBrokerSubscriptions (STOMP): go-stomp's Subscribe does not wait for the
+// broker; "subscribed" starts when the broker has the subscription.  Counted
+// per destination the subscriptions were actually made on.
+func (q *seqRun) waitBrokerSubscriptions(tapTopics []string, xs []*subscriber) bool {
+	if q.spec.Broker != "stomp" {
+		return true
+	}
+	want := map[string]int{}
+	for _, t := range tapTopics {
+		want[q.subject(t)]++
+	}
+	for _, x := range xs {
+		want[q.subject(x.sub.Topic())]++
+	}
+	for dest, n := range want {
+		if q.bus.sb.SubscriberCount(dest) < n {
+			q.count("stomp_subscribe_returned_before_broker_had_it", 1)
+		}
+		if !q.bus.sb.WaitSubscribers(dest, n, waitBound) {
+			q.inconclusive("the STOMP broker did not get the SUBSCRIBE frames for " + dest)
+			return false
+		}
+	}
+	return true
+}
+
+// runShared: several live subscriptions through ONE scope provider.
+func (q *seqRun) runShared() {
+	s := q.spec
+	var err error
+	for _, lp := range []**link{&q.pubL, &q.aL, &q.tapL} {
+		if *lp, err = q.bus.connect(s.Broker); err != nil {
+			q.inconclusive("broker connection failed: " + err.Error())
+			return
+		}
+	}
+	if !q.openPublishers() {
+		return
+	}
+	prov := q.providerFor(q.aL) // the one provider / subscriber transport factory
+	var taps []string
+	for i, ss := range s.Subs {
+		x, err := q.subscribeVia(fmt.Sprintf("S%d(%s %s)", i, ss.Op, ss.User), prov, ss.Op, ss.User, 0)
+		if err != nil {
+			q.inconclusive("Subscribe: " + err.Error())
+			return
+		}
+		x.idx = i
+		q.subs = append(q.subs, x)
+		if x.topic == "" {
+			q.inconclusive("the emitted publisher did not publish on the capture transport")
+			return
+		}
+		if err := q.startTapOn(x.topic); err != nil {
+			q.inconclusive("tap: " + err.Error())
+			return
+		}
+		taps = append(taps, x.topic)
+		if !x.dumpOK {
+			q.count("worker_goroutines_not_identified", 1)
+		}
+	}
+	if !q.waitBrokerSubscriptions(taps, q.subs) {
+		return
+	}
+	phase := func(n, ph int, live []*subscriber) bool {
+		for i := 0; i < n; i++ {
+			if _, err := q.publishTo(q.subs[q.rng.Intn(len(q.subs))], "valid", ph); err != nil {
+				q.inconclusive("publish failed: " + err.Error())
+				return false
+			}
+		}
+		for _, x := range live {
+			if _, err := q.publishTo(x, "sentinel", ph); err != nil {
+				q.inconclusive("publish failed: " + err.Error())
+				return false
+			}
+		}
+		if !q.waitTap() {
+			q.inconclusive("the raw tap subscribers did not see everything published")
+			return false
+		}
+		for _, x := range live {
+			st, dump := q.settle(x, ph)
+			switch st {
+			case "complete":
+			case "inconclusive":
+				q.inconclusive(fmt.Sprintf("subscription %s did not log %d required messages within %v although its workers are alive: %v", x.name, len(q.missing(x)), waitBound, grepShort(dump, x.workerFn)))
+				return false
+			default:
+				miss := q.missing(x)
+				if x.sub.Topic() != x.topic {
+					q.vio("subscriber-topic-differs-from-publisher-topic:scope="+scopeName(x.op), fmt.Sprintf("the emitted subscriber of scope %s subscribed to %q while the emitted publisher publishes on %q: the handler is never invoked (%d of %d valid messages missing, no error anywhere)", scopeName(x.op), x.sub.Topic(), x.topic, len(miss), len(q.required(x))),
+						map[string]interface{}{"subscription": x.name, "publisher_topic": x.topic, "subscription_topic": x.sub.Topic(), "status": st})
+					q.aborted = true
+					return false
+				}
+				q.vio("shared-provider:not-delivered:"+st, fmt.Sprintf("with %d live subscriptions made through one scope provider, subscription %s never got %d of %d valid messages published on its own topic (%s)", len(q.subs), x.name, len(miss), len(q.required(x)), st),
+					map[string]interface{}{"subscription": x.name, "topic": x.topic, "status": st, "missing_count": len(miss), "first_missing_step": miss[0].Step, "first_missing_cid": miss[0].Cid, "logged": x.rec.length(), "goroutines": grep(dump, "frugal/lib/go.")})
+				q.aborted = true
+				return false
+			}
+		}
+		return true
+	}
+	if !phase(s.N, 1, q.subs) {
+		return
+	}
+	// Unsubscribe the first subscription; the others must keep working and it
+	// must get nothing that is published afterwards
+	x0 := q.subs[0]
+	done := make(chan error, 1)
+	go func() { done <- x0.sub.Unsubscribe() }()
+	select {
+	case err := <-done:
+		if err != nil {
+			q.inconclusive("Unsubscribe failed: " + err.Error())
+			return
+		}
+	case <-time.After(waitBound):
+		q.inconclusive(fmt.Sprintf("Unsubscribe did not return within %v", waitBound))
+		return
+	}
+	x0.unsub = true
+	q.letters = append(q.letters, '|')
+	before := len(q.msgs)
+	if !phase(s.K, 3, q.subs[1:]) {
+		return
+	}
+	time.Sleep(2 * time.Millisecond)
+	for _, m := range q.msgs[before:] {
+		if m.Target == x0 {
+			q.count("unsubscribe_checks", 1)
+		}
+	}
+	q.count("shared_provider_sequences_completed", 1)
+	q.count("sequences_completed", 1)
 }
 
 func (q *seqRun) run() {
@@ -1009,13 +1358,9 @@ func (q *seqRun) run() {
 		q.inconclusive("the emitted publisher did not publish on the capture transport")
 		return
 	}
-	prov := q.providerFor(q.pubL)
-	q.pubE, q.pubP = mainsvc.NewEventsPublisher(prov), mainsvc.NewPlainPublisher(prov)
-	if err := q.pubE.Open(); err != nil {
-		q.inconclusive("publisher Open: " + err.Error())
+	if !q.openPublishers() {
 		return
 	}
-	q.pubP.Open()
 	if err := q.startTap(); err != nil {
 		q.inconclusive("tap: " + err.Error())
 		return
@@ -1031,16 +1376,8 @@ func (q *seqRun) run() {
 	if !q.A.dumpOK || !q.B.dumpOK {
 		q.count("worker_goroutines_not_identified", 1)
 	}
-	if s.Broker == "stomp" {
-		// go-stomp's Subscribe does not wait for the broker: "subscribed" starts
-		// when the broker has the subscription
-		if q.bus.sb.SubscriberCount(q.subject(q.topic)) < 3 {
-			q.count("stomp_subscribe_returned_before_broker_had_it", 1)
-		}
-		if !q.bus.sb.WaitSubscribers(q.subject(q.topic), 3, waitBound) {
-			q.inconclusive("the STOMP broker did not get the three SUBSCRIBE frames")
-			return
-		}
+	if !q.waitBrokerSubscriptions([]string{q.topic}, []*subscriber{q.A, q.B}) {
+		return
 	}
 
 	// phase 1: both subscribed
